@@ -4,13 +4,14 @@
    of seconds put and not erased, in write order).  What is proved for ALL inputs is the record format, the
    torn tail, the erase overwrite, crc detection and that an erased id is unknown.  The refinement of the whole
    cache (known buckets <-> record offsets, refcounts <-> live records, writing file, sizes, file removal, naming
-   counter) to the specification is proved by induction over ALL histories of put / get / erase / sizes / listing /
-   restart / torn put (every k) / torn erase (every k except 3; every k for the repaired reader) — theorems
-   ..._all_histories (invariant: DiskCache/Inv.v, preservation: Steps.v, theorem: Refine.v).  Histories that
-   contain ReadNextTailSecond calls (the tail cursor and its bail-out branches as part of the state machine)
-   are covered only up to a length bound over a fixed alphabet — those theorems are named _partial. *)
+   counter, tail-read cursor) to the specification is proved by induction over ALL histories of put / get / erase /
+   ReadNextTailSecond / sizes / listing / restart / torn put (every k) / torn erase (every k except 3; every k for
+   the repaired reader) -- theorems ..._all_histories (invariant: DiskCache/Inv.v, preservation: Steps.v and Tail.v,
+   theorems: Refine.v), for every crc function with 32-bit values.  The bounded theorems (_partial) are kept; they
+   additionally check the relation of the unsent size to the specification, which is the only clause not in the
+   unbounded theorems.  Byte flips are covered by the crc theorem only. *)
 From Coq Require Import ZArith List Bool Lia.
-From SH Require Import Common.Wrap Gen.DiskCacheConsts DiskCache.Model DiskCache.Spec DiskCache.Proofs DiskCache.Format DiskCache.Inv DiskCache.Steps DiskCache.Refine.
+From SH Require Import Common.Wrap Gen.DiskCacheConsts DiskCache.Model DiskCache.Spec DiskCache.Proofs DiskCache.Format DiskCache.Inv DiskCache.Steps DiskCache.Tail DiskCache.Refine.
 Import ListNotations.
 Open Scope Z_scope.
 
@@ -75,29 +76,37 @@ Proof. exact get_detects_corruption_or_collision. Qed.
 
 (* "After any sequence of put, get and erase operations and any restart, including a crash that tears the last
    write at any byte ... identical bytes; it never returns erased seconds ...; only a second whose write was torn
-   may be missing": for EVERY history (no length bound, crc uninterpreted) of put / get / erase / sizes / listing
-   / restart / put torn after any k bytes / erase torn after any k <> 3 bytes (any k for the repaired reader),
-   the cache answers every put, get and erase like the list specification, and its state satisfies the invariant
-   of Inv.v w.r.t. a ghost directory whose good records are exactly the specification's list.
-   NOT in this theorem: histories containing tail reads (see the _partial theorems) and byte flips. *)
+   may be missing": for EVERY history (no length bound, crc any function with 32-bit values) of put / get / erase
+   / ReadNextTailSecond / sizes / listing / restart / put torn after any k bytes / erase torn after any k <> 3
+   bytes (any k for the repaired reader), the cache answers every put, get, erase and tail read like the list
+   specification, and its state satisfies the invariant of Inv.v w.r.t. a ghost directory whose good records are
+   exactly the specification's list.  NOT in this theorem: byte flips (op_ok excludes OCorrupt). *)
 Theorem C09_refines_spec_all_histories :
-  forall crc rep ops, Forall (op_ok rep) ops ->
+  forall crc rep, (forall d, 0 <= crc d < two32) -> forall ops, Forall (op_ok rep) ops ->
   exists s, a_run rep a_empty ops = Some s /\
             Forall2 agree (snd (run crc rep empty_shard ops)) (a_obs rep a_empty ops) /\
             exists g, Inv crc rep (fst (run crc rep empty_shard ops)) g /\
                       a_ents s = aents g /\ a_last s = s_last_id (fst (run crc rep empty_shard ops)).
 Proof. exact refines_all_histories. Qed.
 
-(* "...re-reads exactly the seconds that were put and not erased, in write order, with identical bytes ...
-   only a second whose write was torn may be missing" (what is on disk for the next start): after every such
+(* "the cache re-reads exactly the seconds that were put and not erased, in write order, with identical bytes ...
+   only a second whose write was torn may be missing": after EVERY such history (tail reads, restarts, torn puts
+   and torn erases included), what the next start re-reads -- ReadNextTailSecond until id 0, GetBucket for every
+   second -- is exactly the specification's list: (time, bytes) of every second put and not erased, in write
+   order; by a_step that list contains a torn put's second iff all its bytes were written and lacks a torn
+   erase's second iff the overwrite was complete. *)
+Theorem C09_reread_exact_all_histories :
+  forall crc rep, (forall d, 0 <= crc d < two32) -> forall ops, Forall (op_ok rep) ops ->
+  exists s, a_run rep a_empty ops = Some s /\ reread crc rep (fst (run crc rep empty_shard ops)) = expected s.
+Proof. exact reread_exact_all_histories. Qed.
+
+(* the same clause, as a statement about the directory (what is on disk for the next start): after every such
    history the directory consists of files made of whole records plus possibly one torn tail, and the good
    records in file-name and offset order are exactly (time, bytes) of the specification's list — which for a
    torn put contains the torn second iff all its bytes were written, and for a torn erase lacks the erased
-   second iff the overwrite was complete (a_step).  Together with C09_record_format /
-   C09_torn_put_tail_is_dropped (what the reader makes of such a file, all inputs) this is the re-read clause;
-   the reader's loop itself is composed with it only in the bounded theorems. *)
+   second iff the overwrite was complete (a_step). *)
 Theorem C09_directory_is_the_spec_all_histories :
-  forall crc rep ops, Forall (op_ok rep) ops ->
+  forall crc rep, (forall d, 0 <= crc d < two32) -> forall ops, Forall (op_ok rep) ops ->
   exists s g, a_run rep a_empty ops = Some s /\
     s_disk (fst (run crc rep empty_shard ops)) = map (fenc crc) g /\
     Forall (fun f => Forall (rec_ok rep) (gf_recs f) /\ torn_ok crc (gf_torn f)) g /\
@@ -108,7 +117,7 @@ Proof. exact directory_is_the_spec. Qed.
 (* "Reported total ... sizes match the files on disk": after every such history totalFileSize is the sum of
    the lengths of the files in the directory *)
 Theorem C09_total_matches_files_all_histories :
-  forall crc rep ops, Forall (op_ok rep) ops ->
+  forall crc rep, (forall d, 0 <= crc d < two32) -> forall ops, Forall (op_ok rep) ops ->
   let st := fst (run crc rep empty_shard ops) in fst (sizes st) = disk_bytes st.
 Proof. exact total_matches_files_all_histories. Qed.
 
@@ -116,7 +125,7 @@ Proof. exact total_matches_files_all_histories. Qed.
    history, every file in the directory that is neither the writing file, nor being read, nor waiting to be
    read is referenced by a known (live, not erased) second *)
 Theorem C09_unreferenced_files_are_gone_all_histories :
-  forall crc rep ops, Forall (op_ok rep) ops ->
+  forall crc rep, (forall d, 0 <= crc d < two32) -> forall ops, Forall (op_ok rep) ops ->
   let st := fst (run crc rep empty_shard ops) in
   forall n d, In (n, d) (s_disk st) ->
   s_writing st <> Some n -> s_reading st <> Some n -> ~ In n (map fst (s_waiting st)) ->
@@ -135,7 +144,7 @@ Proof. exact a_get_erased. Qed.
    erased is deleted once the cache no longer writes to it." — as refinement of the specification machine:
    every put/get/erase/tail answer equals the specification's, [sizes_files_ok] holds after every step, and
    what a start re-reads is exactly the specification's list.
-   This is the only place where tail reads (OTail) are part of the histories.
+   Kept next to the unbounded theorems: [follows] additionally checks the unsent size against the specification.
    PARTIAL: proved for every history of at most 5 operations over [sweep_alphabet] (15 operations: puts with
    and without rotation, gets, erases, tail, restart, puts torn in the header / after it / complete, erases torn
    after 2, 3(unspecified here) and 4 bytes), with the concrete crc32c — not for unbounded histories. *)
@@ -187,15 +196,16 @@ Qed.
    inside its body, an erase torn after 4 bytes, restarts *)
 Definition C09_example_ops : list op :=
   [OPut 7 [1;2] false; OPut 9 [5] false; OErase 1; OPut 8 [] true; OPutTorn 3 [4;4;4] false 21; OPut 6 [6] false;
-   OEraseTorn 1 4; OSizes].
+   OEraseTorn 1 4; OTail; OSizes].
 Example C09_nonvacuous_all_histories :
   Forall (op_ok false) C09_example_ops /\
   (exists s, a_run false a_empty C09_example_ops = Some s /\
              map (fun e => (a_time e, a_body e)) (a_ents s) = [(9, [5]); (8, [])]) /\
-  length (s_disk (fst (run crc32c false empty_shard C09_example_ops))) = 3%nat.
+  length (s_disk (fst (run crc32c false empty_shard C09_example_ops))) = 3%nat /\
+  reread crc32c false (fst (run crc32c false empty_shard C09_example_ops)) = [(9, GOk [5]); (8, GOk [])].
 Proof.
   split; [repeat constructor; simpl; unfold two32; try lia; intros; discriminate|].
-  split; [eexists; split; vm_compute; reflexivity|vm_compute; reflexivity].
+  split; [eexists; split; vm_compute; reflexivity|split; vm_compute; reflexivity].
 Qed.
 Example C09_nonvacuous_corruption :
   exists st1 st3, put crc32c empty_shard 5 [1;2;3] false = (st1, Some 1) /\
